@@ -374,7 +374,10 @@ def check_property(prop, cs, args, seed, lock, write_lock=False):
         helper_failed = [f for f in fl if f not in statement_level]
         # a statement-level obligation proved UNDER a loop invariant / hint that itself no longer holds for this code says nothing:
         # when helper clauses fail too, a violation needs a failing input replayed on the real code
-        if not found and (not statement_level or helper_failed):
+        # ... and "unknown" (the solver gave up) is not a counterexample: without a failing input, a violation needs a statement-level
+        # obligation for which the solver produced a counter-model (sat)
+        refuted = [f for f in statement_level if f.get("status") == "sat"]
+        if not found and (not refuted or helper_failed):
             # only helper obligations (C: invariants, hints, lemmas) fail and the bounded native search of the real code finds
             # no violation of the statement: the proof no longer fits the code -> undecided, not an alarm
             ran = _ran_clean(detail)
